@@ -145,7 +145,7 @@ def c02(tier):
             units.append(U(MACH, "VerifC02Step", weight=6, n=3, schema=-1, pbits=pb, pval=pv, maxedges=me, multi=0, mut=mut))
     # 4 states, Add relations only (chains and diamonds), at most 4 entries
     for pv in range(16):
-        units.append(U(MACH, "VerifC02Step", weight=8, n=4, schema=-1, pbits=4, pval=pv, maxedges=4, only=1, multi=0, mut=0))
+        units.append(U(MACH, "VerifC02Step", weight=8, n=4, schema=-1, pbits=4, pval=pv, maxedges=4, only=1, multi=0, mut=0, emptypre=1, single=1))
     if tier == "thorough":
         for pv in range(0, 1024, 8):
             units.append(U(MACH, "VerifC02Step", weight=20, n=3, schema=-1, pbits=10, pval=pv, multi=0, mut=0))
@@ -171,7 +171,7 @@ def c01(tier):
         units += mach_units("VerifC01Clock", tier, extra={"multi": 1, "handlers": handlers, "check": 0}, n3=(handlers == 0))
     units += shards("VerifC01Clock", 4, n=2, multi=1, handlers=1, check=1)
     for pv in range(16):
-        units.append(U(MACH, "VerifC01Clock", weight=8, n=4, schema=-1, pbits=4, pval=pv, maxedges=4, only=1, multi=0, handlers=0, check=0, mut=0))
+        units.append(U(MACH, "VerifC01Clock", weight=8, n=4, schema=-1, pbits=4, pval=pv, maxedges=4, only=1, multi=0, handlers=0, check=0, mut=0, emptypre=1, single=1))
     return {"units": units, "bounds": dict(MACH_BOUNDS, ticks="symbolic 62-bit base per state, parity = activity"), "assumptions": MACH_ASSUME + [
         "concurrent readers: not explored; every write of activeStates/clock in the encoded code happens inside the activeStatesMx critical section (see DESIGN)"],
         "outside": MACH_OUT + ["interleavings of concurrent readers (covered only by the lock-discipline argument in DESIGN.md)"]}
@@ -305,3 +305,62 @@ def c13(tier):
 
 
 PROPS.update({"C04": c04, "C06": c06, "C08": c08, "C11": c11, "C13": c13})
+
+
+def c16(tier):
+    pkg = "./tools/debugger/server"
+    units = [U(pkg, f, nconcrete=3) for f in ("VerifC16QueueTick", "VerifC16MachTime", "VerifC16Errors", "VerifC16Index")]
+    pkg2 = "./pkg/helpers"
+    return {"units": units,
+            "bounds": {"stream": "0..4 transitions with non-decreasing 64-bit queue ticks / time sums (built from symbolic 32/16-bit increments), descending error index "
+                       "lists of length 0..3, 3 transition ids", "queries": "any 64-bit queue tick / time sum, any index -1..5, cursor 0..7"},
+            "outside": ["hParseMsg derivations (added/removed/touched, sums) and GetTransitionStates: not encoded in this revision", "TUI navigation (Fwd/Back/scroll/filter handlers)",
+                        "gob/brotli export-import", "several clients", "TxAtHTime (wall-clock time.Time arithmetic)"],
+            "assumptions": ["Client built as a struct literal with the exported slices filled by the harness", "fork mode: comparisons on symbolic values fork, z3 decides feasibility"]}
+
+
+PROPS["C16"] = c16
+
+
+def _prepare_shipped(repo, work, tier, spec, env):
+    """dump the shipped schemas of the current /repo natively and generate the literal harness"""
+    import json, os, subprocess
+    root = os.path.dirname(os.path.abspath(__file__))
+    sj = os.path.join(work, "schemas.json")
+    gen = os.path.join(work, "gen")
+    subprocess.run(["python3", os.path.join(root, "tools", "dump_schemas.py"), repo, sj], check=True, env=env)
+    subprocess.run(["python3", os.path.join(root, "tools", "gen_shipped.py"), sj, gen], check=True, env=env)
+    idx = json.load(open(os.path.join(gen, "shipped_index.json")))
+    units = []
+    skipped = []
+    for s in idx["schemas"]:
+        n = s["states"]
+        if spec.get("only_pkgs") and not any(s["pkg"].endswith(p) for p in spec["only_pkgs"]):
+            continue
+        if tier == "quick":
+            depth = 2 if n <= 12 else (1 if n <= 60 else 0)
+        else:
+            depth = 3 if n <= 8 else (2 if n <= 40 else 1)
+        units.append(U(MACH, "VerifC19Shipped", weight=n * n, shipped=s["index"], depth=depth))
+        if depth < 2:
+            skipped.append("%s.%s (%d states): depth %d" % (s["pkg"].replace("github.com/pancsta/asyncmachine-go/", ""), s["name"], n, depth))
+    spec["units"] = units
+    spec["bounds"]["schemas_discovered"] = len(idx["schemas"])
+    spec["bounds"]["dump_errors"] = [e["Pkg"] for e in idx.get("errors", [])]
+    spec["outside"] = spec["outside"] + ["history depth below 2 for: " + "; ".join(skipped)]
+    return gen
+
+
+def c19(tier):
+    return {"units": [], "prepare": _prepare_shipped,
+            "bounds": {"schemas": "every exported package-level machine.Schema variable of the module found by a go/types scan (symgo discover), values dumped "
+                       "natively from the current source", "histories": "every sequence of up to `depth` single-state Add1/Remove1 mutations from the empty machine "
+                       "(mutated state and kind symbolic): quick depth 2 for schemas <=12 states, 1 up to 60, 0 (well-formedness only) above; thorough 3 / 2 / 1"},
+            "outside": ["active sets only reachable by longer histories (the property quantifies over all reachable sets; an inductive argument over symbolic active sets was "
+                        "not feasible with this engine, see DESIGN.md A.4)", "handlers (unbound, as the property says)"],
+            "assumptions": MACH_ASSUME + ["mixin schemas may reference the documented base states (Start, Ready, Healthcheck, Heartbeat, ErrNetwork, ErrHandlerTimeout, Exception) "
+                                          "without defining them (weaker reading of 'references only states it defines')",
+                                          "exclusive groups are derived from the schema: two states that list each other in Remove"]}
+
+
+PROPS["C19"] = c19
